@@ -1,13 +1,14 @@
 (** C05 — simplification preserves meaning and terminates.  Property theorems only.
-    Proved (fragment 1 of the well-formedness predicate SimpProofs.wf, which also carries an arbitrary predicate Q that every identifier of the tree satisfies — the simplifier invents no identifier —: constants, identifiers, memory cells with any well-formed
-    address, conditionals, the n-ary operators + * ^ & | on operands of one width, unary and binary minus): for EVERY such tree,
+    Proved (fragments 1-2 of the well-formedness predicate SimpProofs.wf, which also carries an arbitrary predicate Q that every identifier of the tree satisfies — the simplifier invents no identifier —: constants, identifiers, memory cells with any well-formed
+    address, conditionals, the n-ary operators + * ^ & | on operands of one width, unary and binary minus, slices; all widths at most 64): for EVERY such tree,
     every fuel and every result the model Simp.simp returns, the result is again well formed, has the same width, and has the
     same value under every valuation of identifiers, every memory and every interpretation of uninterpreted operators.
     This covers flattening, canonical sorting, constant folding through the fixed-width integer classes, A op 0, the
-    singleton rule, duplicate / cancelling-pair removal, all minus rules, the conditional rules, the bottom-up traversal and
+    singleton rule, duplicate / cancelling-pair removal, all minus rules, the conditional rules, the slice rules (whole-width slice,
+    slice of a constant, slice of a slice, low bytes of a memory cell), the bottom-up traversal and
     the fixpoint loop.  Termination: Simp.simp is total by construction (explicit fuel); OutOfFuel is a distinct result that
     the correspondence never observes on the generated trees (fuel 64).
-    NOT yet proved: slices, concatenations (merge_sliceto_slice), shifts / rotates / == / parity rules — for those the property is
+    NOT yet proved: concatenations (merge_sliceto_slice), shifts / rotates / == / parity rules — for those the property is
     decided by the exact-tree correspondence with expression_helper.py and the exhaustive valuation search (harness/p_c05.py). *)
 From Coq Require Import ZArith List Bool String.
 From Mx Require Import Expr Simp SimpProofs.
